@@ -19,7 +19,13 @@ Requests == <<
   <<Cur, S("sub"), S("m")>>,          \* ./sub/m
   <<Par, S("src"), S("m")>>,          \* ../src/m
   <<Cur, Cur, S("m")>>,               \* ././m
-  <<S("@pkg"), S("m"), Seg("init", "luau")>> \* @pkg/m/init.luau
+  <<S("@pkg"), S("m"), Seg("init", "luau")>>, \* @pkg/m/init.luau
+  \* requests whose last segment is `.` or `..`: the candidates are built from the NORMALISED path
+  <<Par>>,                            \* ..
+  <<Cur, Par>>,                       \* ./..
+  <<Par, S("sub"), Par>>,             \* ../sub/..
+  <<Cur, S("m"), Par, S("m"), Cur>>,  \* ./m/../m/.
+  <<Cur, S("m"), S("x"), Par>>        \* ./m/x/..
 >>
 SourcesFiles == { <<S("src"), Seg("main", "lua")>>, <<S("src"), Seg("init", "luau")>>, <<S("src"), S("sub"), Seg("init", "lua")>> }
 FolderNames == { S("init"), S("index"), Seg("mod", "luau") }
